@@ -660,6 +660,42 @@ func (s *AssignmentStatement) Walk(walkChild func(Element)) {
 	walkChild(s.Value)
 }
 
+// statementStartDoc returns the doc of an expression which stands at the start of a statement.
+//
+// If the printed expression starts with a function expression, it is parenthesized:
+// The parser reads `fun` (and `view fun`) at the start of a statement as a function declaration,
+// or as a statement which only consists of the function expression.
+func statementStartDoc(ctx PrettyContext, expression Expression) prettier.Doc {
+	doc := docOrEmpty(expression, ctx)
+
+	for {
+		switch e := expression.(type) {
+		case *FunctionExpression:
+			return prettier.Concat{
+				prettier.Text("("),
+				doc,
+				prettier.Text(")"),
+			}
+		case *InvocationExpression:
+			expression = e.InvokedExpression
+		case *MemberExpression:
+			expression = e.Expression
+		case *IndexExpression:
+			expression = e.TargetExpression
+		case *ForceExpression:
+			expression = e.Expression
+		case *CastingExpression:
+			expression = e.Expression
+		case *BinaryExpression:
+			expression = e.Left
+		case *ConditionalExpression:
+			expression = e.Test
+		default:
+			return doc
+		}
+	}
+}
+
 func (s *AssignmentStatement) Doc(ctx PrettyContext) prettier.Doc {
 	// BinaryExpression.Doc already provides its own Group+Indent for
 	// continuation-line indentation, so we render the value inline here
@@ -670,7 +706,7 @@ func (s *AssignmentStatement) Doc(ctx PrettyContext) prettier.Doc {
 	// expression body) would make the Group's "fits" check trivially succeed
 	// and force-flatten nested expressions inside.
 	return ctx.Wrap(s, prettier.Concat{
-		docOrEmpty(s.Target, ctx),
+		statementStartDoc(ctx, s.Target),
 		prettier.Space,
 		docOrEmpty(s.Transfer, ctx),
 		prettier.Space,
@@ -737,7 +773,7 @@ const swapStatementSpaceSymbolSpaceDoc = prettier.Text(" <-> ")
 func (s *SwapStatement) Doc(ctx PrettyContext) prettier.Doc {
 	// No outer Group: see AssignmentStatement.Doc for the rationale.
 	return ctx.Wrap(s, prettier.Concat{
-		docOrEmpty(s.Left, ctx),
+		statementStartDoc(ctx, s.Left),
 		swapStatementSpaceSymbolSpaceDoc,
 		docOrEmpty(s.Right, ctx),
 	})
@@ -795,7 +831,11 @@ func (s *ExpressionStatement) Walk(walkChild func(Element)) {
 }
 
 func (s *ExpressionStatement) Doc(ctx PrettyContext) prettier.Doc {
-	return ctx.Wrap(s, docOrEmpty(s.Expression, ctx))
+	// A statement which only consists of a function expression needs no parentheses
+	if _, ok := s.Expression.(*FunctionExpression); ok {
+		return ctx.Wrap(s, docOrEmpty(s.Expression, ctx))
+	}
+	return ctx.Wrap(s, statementStartDoc(ctx, s.Expression))
 }
 
 func (s *ExpressionStatement) MarshalJSON() ([]byte, error) {
